@@ -187,6 +187,13 @@ def run(ctx):
     # that feeds the flattened dataset carries the same order argument
     t_orders = {x.args[2] for x in resh if len(x.args) > 2} | {u.args[2] for u in unrs if len(u.args) > 2}
     ok_order = ok_order_syntax or (len(t_orders) == 1 and len(resh) >= 2 and bool(unrs) and not (orders - {T.show(o) for o in t_orders} - {"'C'"}))
+    # the coordinates may also be expanded over the leading grid with np.meshgrid(..., indexing="ij") and reshaped: row-major like the
+    # data (the default "xy" indexing walks the first two axes column-major and is a violation)
+    mesh = [x for v in vals for x in T.find_ops(v, "meshgrid")]
+    mesh_ij = [m for m in mesh if any(isinstance(a, sp.Tuple) and len(a.args) == 2 and a.args[0] == Str("indexing") and a.args[1] == Str("ij")
+                                      for a in m.args)]
+    if mesh and not unrs:
+        ok_order = len(mesh_ij) == len(mesh) and t_orders == {Str("C")} and len(resh) >= 3
     ctx.expect(ok_order, "R15.3", "WaveSpectrum.flatten[one order]",
                "coordinates are unravelled and data reshaped with the same (C) memory order", fl.loc(),
                derived=str(sorted(orders | {T.show(o) for o in t_orders})))
@@ -213,6 +220,16 @@ def run(ctx):
         oks = bool(oks) and all(fname(u.args[0]) == "arange" and u.args[0].args[-1] in (Lt, Lt_many) and (
             len(u.args[0].args) == 1 or u.args[0].args[0] == 0) for u in unrs)
         detail = f"length {T.show(Lt, 120)}; unravel over {T.show(St, 120)}; indices {sorted(idxs)}"
+    if mesh and not unrs and len(firsts) == 1:
+        # meshgrid form: coordinate grids and data are all reshaped to the one flattened length
+        Lt = next(iter(firsts))
+        S0 = [x for x in T.find_ops(Lt, "stshape")]
+        single = [c for c in T.subterms(Lt) if fname(c) == "eq" and T.find_ops(c, "stshape")]
+        many = {single[0]: False} if len(single) == 1 else {}
+        one = {single[0]: True} if len(single) == 1 else None
+        oks = bool(S0) and T.equivalent(T.assume(Lt, many), op("prod", S0[0], T.NONE_T)) == T.Verdict.EQUAL \
+            and (one is None or T.assume(Lt, one) == 1) and len(mesh_ij) == len(mesh)
+        detail = f"length {T.show(Lt, 120)}; coordinates expanded with meshgrid(indexing='ij') and reshaped to that length"
     ctx.expect(bool(oks), "R15.3", "WaveSpectrum.flatten[one length]",
                "the flattened length is the product of the space-time shape (1 for a single spectrum) for coordinates, spectral and "
                "non-spectral variables alike, and the coordinates are unravelled over that same shape", fl.loc(), derived=detail)
